@@ -350,6 +350,7 @@ def run(ctx):
   r3_io_coupdate(ctx)
   r4_source_untouched(ctx)
   r8_signature_outputs_table(ctx)
+  shared.rule_pipeline_simulation(ctx, 'C02.R9', 'whole pipeline on label models: original operators keep their order, graph inputs / outputs keep their arity and stay float unless INPUT / OUTPUT is selected')
   shared.rule_performer_translation(ctx, 'C02.R5')
   shared.rule_graph_rewrite_simulation(ctx, 'C02.R7', 'graph rewriting on label graphs: only the listed consumers and (iff covered) the graph outputs are rewired; original operators keep their order and operands; exactly one new operator and tensor per insertion')
   from sa.rules import c19  # pylint: disable=g-import-not-at-top
